@@ -66,4 +66,41 @@ func init() {
 				description: "seeded multi-fault sequences, splices, random bytes, cross-type decoding"},
 		},
 	}
+	specs["C09"] = &checkSpec{
+		id:    "C09",
+		level: "fault_enumeration",
+		rule: "values of all nine encodable types come from a seeded workload generator steered at what the property names (polygons whose vertices are cell centres of one level, of mixed levels, partly snapped, unsnapped; near cube edges and corners; 0..many loops, holes, reversed loops). c09benign: Encode -> simulated medium -> Decode under the two extreme reader shapes and one drawn benign behaviour (chunk sizes, (n,EOF), (0,nil), ByteReader or not): the decoded value must be bit-identical, answer a sample of queries identically, re-encode to identical bytes, and two encodings of one value must be identical. c09hard: for EVERY write call k of the encoding the k-th Write fails (permanent/transient x whole/short) and for EVERY byte offset the medium crashes: an Encode that returns nil must have stored exactly the fault-free bytes. " +
+			"evaluations = decode round trips (benign) plus faulted encodes (hard); distinct_nontrivial = distinct encodings (hash) longer than 9 bytes / with at least two writes.",
+		explanation: "the stream clause of the property is decided by fault enumeration on the write side and benign-behaviour enumeration on the read side; the value space is reached only by seeded workload generation, which is said plainly: it is not where simulation has leverage",
+		assumptions: []string{
+			"the quantifier over values is sampled, not enumerated; the generator is steered at the compressed/lossless choice, the off-centre list, face changes and extreme (si,ti), but a clean batch says nothing about values it did not draw",
+			"bit-identical is judged on coordinates (Float64bits), vertex and loop order, nesting depth, origin-containment flag, bounds and hasHoles (read by reflection when the field exists)",
+		},
+		real:  realCode,
+		stubs: streamStubs,
+		runs: []engineRun{
+			{spec: engineSpec{name: "c09benign"}, label: "c09benign", faultFree: true, quickRuns: 12000, quickDL: 40 * time.Second, thorRuns: 600000, thorDL: 15 * time.Minute,
+				description: "fault-free and benign stream behaviour: nothing may differ"},
+			{spec: engineSpec{name: "c09hard"}, label: "c09hard", quickRuns: 500, quickDL: 40 * time.Second, thorRuns: 20000, thorDL: 15 * time.Minute,
+				description: "every write call fails in turn, every crash offset: no failed write is acknowledged"},
+		},
+	}
+	specs["C03"] = &checkSpec{
+		id:    "C03",
+		level: "exploration",
+		rule: "one evaluation = one crossing call inside a seeded call history (1-40 calls of CrossingSign, ChainCrossingSign, EdgeOrVertexCrossing, EdgeOrVertexChainCrossing, RestartAt on one EdgeCrosser, constructed either way) over a pool of 3-8 points mixing general points, points exactly on a common great circle (determinant exactly zero), points a few ulps off it, near-duplicates, so that vertices repeat, equal A or B and chains revisit themselves. Each answer is compared with (1) the stateless function on a brand-new crosser and (2) the four-orientation criterion in exact rational arithmetic (library perturbation consulted only where a determinant is exactly zero), plus reversal/swap symmetry. " +
+			"Non-trivial = a history with at least two calls of at least two kinds; distinct = hash of the call-kind sequence, pool size and first coordinates.",
+		explanation: "history clause only: the crosser's cached state against a stateless model, the way a storage engine is checked against a map; no fault or schedule dimension exists for this type",
+		assumptions: []string{
+			"PARTIAL CLAIM: only the clause 'the incremental edge crosser gives, in any call order, the same answer as the stateless test' is decided. Exactness and symmetry are checked only on the quadruples the histories happen to visit; the universal statement over all quadruples and the vertex-crossing rule over all vertex configurations are pure functions of the input and are not claimed",
+			"edges with antipodal endpoints are excluded (not defined)",
+		},
+		real:  realCode,
+		stubs: []string{"none"},
+		runs: []engineRun{{
+			spec: engineSpec{name: "c03"}, label: "c03", faultFree: true,
+			quickRuns: 40000, quickDL: 40 * time.Second, thorRuns: 1500000, thorDL: 10 * time.Minute,
+			description: "call histories on one EdgeCrosser vs stateless and exact models",
+		}},
+	}
 }
